@@ -28,6 +28,7 @@ PROPS["C18"] = {
         {"test": "^TestC18BigPut$", "quick": {"checks": 60}, "thorough": {"checks": 600, "shards": 2}},
         {"test": "^TestC18Crash$", "quick": {"checks": 6, "shards": 2, "procs": 8}, "thorough": {"checks": 150, "shards": 4, "procs": 4}},
         {"test": "^TestC18Conc$", "quick": {"checks": 400, "shards": 2}, "thorough": {"checks": 10000, "shards": 4}},
+        {"test": "^TestC18ConcCrash$", "quick": {"checks": 60, "shards": 4}, "thorough": {"checks": 1500, "shards": 8}},
     ],
 }
 
